@@ -11,6 +11,7 @@ builtins.exec / builtins.eval in the harness process (no hook in /repo).
 """
 
 import ast
+import warnings
 import builtins
 import contextlib
 import io
@@ -20,6 +21,8 @@ import traceback
 
 from harness.common.framework import Prop
 from translate import t_c19
+
+warnings.simplefilter("ignore", SyntaxWarning)
 
 FLAGS = ['ASSIGN', 'CONDITION', 'LOOP', 'CALL', 'EXCEPTION', 'CLASS_DEFINITION',
          'FUNCTION_DEFINITION', 'IMPORT']
@@ -254,6 +257,57 @@ class ProgGen:
     return '\n'.join(lines)
 
 
+# ------------------------------------------------------------------------------------------
+# Slot grid: every syntactic position (outer construct with a hole) x every inner construct
+# ------------------------------------------------------------------------------------------
+
+EXPR_SLOTS = [
+    '@<E>\ndef f():\n  pass', 'def f(a=<E>):\n  pass', 'def f(*, k=<E>):\n  pass', 'def f(a: <E>):\n  pass',
+    'def f() -> <E>:\n  pass', 'class A(<E>):\n  pass', '@<E>\nclass A:\n  pass', 'f"{<E>}"', 'f"{1:{<E>}}"',
+    '[1][<E>]', '[1][<E>:<E>]', '[*<E>]', '{**{E}}', '(<E>).real', 'print(<E>)', 'print(end=<E>)', 'print(*<E>)',
+    'assert 1, <E>', 'assert <E>', 'raise ValueError(<E>)', 'raise ValueError() from <E>', 'with <E> as c:\n  pass',
+    'for i in <E>:\n  break', 'while <E>:\n  break', 'if <E>:\n  pass', 'if 0:\n  pass\nelif <E>:\n  pass',
+    'match 1:\n  case 1 if <E>:\n    pass', 'match <E>:\n  case _:\n    pass', 'lambda a=<E>: a', 'lambda: <E>',
+    '[<E> for i in [1]]', '[i for i in <E>]', '[i for i in [1] if <E>]', '{i: <E> for i in [1]}', '(i for i in <E>)',
+    'x = [0]\ndel x[<E>]', 'def f():\n  return <E>', 'def f():\n  yield <E>', 'def f():\n  yield from <E>',
+    'async def f():\n  await <E>', 'x: <E> = 1', 'x: int = <E>', 'x = 1\nx += <E>', '(y := <E>)', 'x = <E>', 'x = y = <E>',
+    '1 < <E> < 3', '1 and <E>', 'not <E>', '-<E>', '1 + <E>', '(<E> if 1 else 2)', '(1 if <E> else 2)', '(1 if 0 else <E>)',
+    'try:\n  pass\nexcept <E>:\n  pass', '<E>', '[<E>]', '(<E>, 1)', '{1: {E}}', '{{E}}', 'x = [0]\nx[<E>] = 1',
+    'x = [0]\nx[0] = <E>', 'for i in [1]:\n  pass\nelse:\n  <E>', 'print(1) if <E> else None', 'type X = <E>',
+]
+STMT_SLOTS = [
+    'if 1:\n<S>', 'if 0:\n  pass\nelse:\n<S>', 'if 0:\n  pass\nelif 1:\n<S>', 'for i in [1]:\n<S>',
+    'for i in []:\n  pass\nelse:\n<S>', 'while 1:\n<S>\n  break', 'while 0:\n  pass\nelse:\n<S>',
+    'try:\n<S>\nexcept ValueError:\n  pass', 'try:\n  raise ValueError()\nexcept ValueError:\n<S>',
+    'try:\n  pass\nexcept ValueError:\n  pass\nelse:\n<S>', 'try:\n  pass\nfinally:\n<S>',
+    'try:\n  pass\nexcept* ValueError:\n<S>', 'with CTX():\n<S>', 'def f():\n<S>\nf()', 'class A:\n<S>',
+    'match 1:\n  case 1:\n  <S2>', 'async def f():\n<S>', 'def f():\n  def g():\n  <S2>\n  g()\nf()',
+    'class A:\n  def m(self):\n  <S2>\nA().m()', 'if 1:\n  if 1:\n  <S2>',
+]
+INNER_EXPR = ['len("a")', '(lambda: 1)', '(w := 1)']
+INNER_STMT = ['x = 1', 'x = 1\nx += 1', 'x: int = 1', '(x := 1)', 'if 1:\n  pass', 'match 1:\n  case _:\n    pass',
+              'for i in []:\n  pass', 'while 0:\n  pass', 'len("a")', 'try:\n  pass\nexcept ValueError:\n  pass',
+              'try:\n  pass\nexcept* ValueError:\n  pass', 'assert True', 'raise ValueError()', 'class B:\n  pass',
+              'def h():\n  pass', 'async def h():\n  pass', 'lambda: 1', 'import math', 'from math import floor']
+
+
+def _indent(text, n):
+  return '\n'.join(' ' * n + l for l in text.split('\n'))
+
+
+def slot_programs():
+  for slot in EXPR_SLOTS:
+    for inner in INNER_EXPR:
+      yield slot.replace('<E>', inner), inner
+  for slot in STMT_SLOTS:
+    for inner in INNER_STMT:
+      if '<S2>' in slot:
+        code = slot.replace('  <S2>', _indent(inner, 4))
+      else:
+        code = slot.replace('<S>', _indent(inner, 2))
+      yield code, inner
+
+
 MALFORMED = ['x = = 1', 'def f(:\n  pass', 'if 1\n  x = 2', 'print((1)', 'for in x: pass', '1 +', 'class : pass']
 
 
@@ -281,9 +335,13 @@ def gen_perms(rng, code_kinds):
 
 # ------------------------------------------------------------------------------------------
 
+def _canon_text(t):
+  return None if t is None else re.sub(r' at 0x[0-9a-fA-F]+', ' at 0x?', t)   # addresses never cross the protocol
+
+
 def _canon_value(v):
   if isinstance(v, str):
-    return re.sub(r' at 0x[0-9a-fA-F]+', ' at 0x?', repr(v))   # addresses never cross the protocol
+    return _canon_text(repr(v))
   if isinstance(v, (int, float, bool, type(None))):
     return repr(v)
   if isinstance(v, (list, tuple)):
@@ -291,7 +349,7 @@ def _canon_value(v):
   if isinstance(v, dict):
     return ['dict'] + [[_canon_value(k), _canon_value(x)] for k, x in v.items()]
   if isinstance(v, (set, frozenset)):
-    return ['set'] + sorted(repr(x) for x in v)
+    return ['set'] + sorted(_canon_text(repr(x)) for x in v)
   if isinstance(v, type):
     return '<class %s>' % v.__name__
   if callable(v):
@@ -324,12 +382,14 @@ def reference_run(code):
   try:
     with contextlib.redirect_stdout(stdout):
       exec(compile(tree, '', 'exec'), g)   # pylint: disable=exec-used
+  except SyntaxError as e:  # raised by compile(): nothing was executed
+    return {'outcome': 'raised', 'error': type(e).__name__, 'line': e.lineno, 'sentinel': list(sentinel)}
   except Exception as e:    # pylint: disable=broad-except
     return {'outcome': 'raised', 'error': type(e).__name__, 'line': _first_code_line(e.__traceback__),
             'sentinel': list(sentinel)}
   inter = {k: _canon_value(v) for k, v in g.items()
            if k not in ('__builtins__', '__result__') and (k not in orig or v is not orig[k])}
-  out = {'outcome': 'ok', 'stdout': stdout.getvalue(), 'vars': inter, 'sentinel': list(sentinel)}
+  out = {'outcome': 'ok', 'stdout': _canon_text(stdout.getvalue()), 'vars': inter, 'sentinel': list(sentinel)}
   if result_expr:
     out['result'] = _canon_value(g.get('__result__'))
   elif tree.body and isinstance(tree.body[-1], ast.Assign):
@@ -344,7 +404,7 @@ class C19(Prop):
   props_modules = ['PgProps.C19']
   driver = 'drv_c19'
   translators = [t_c19.run]
-  case_timeout_s = 10
+  case_timeout_s = 3
   rule = ('programs generated as source text from a statement/expression grammar (28 statement '
           'forms, 13 expression forms, nesting depth <= 3) plus a malformed stream, parsed by the '
           'real ast.parse; permission subsets biased to all-but-one-needed / exactly-needed / empty / '
@@ -383,13 +443,29 @@ class C19(Prop):
       elif mode < 9:
         explicit = gen_perms(rng, kinds)
         scopes = [gen_perms(rng, kinds) for _ in range(rng.randint(1, 2))]
-      yield {'op': 'run', 'code': code, 'explicit': explicit, 'scopes': scopes, 'tree': tree}
+      case = {'op': 'run', 'code': code, 'explicit': explicit, 'scopes': scopes, 'tree': tree}
+      if rng.chance(0.3):
+        case['pre'] = [gen_perms(rng, kinds) for _ in range(rng.randint(1, 2))]
+      yield case
     # every single construct x every single-flag-missing subset (small, exhaustive grid)
     singles = ['x = 1', 'x = 1\nx += 1', 'x: int = 1', '(x := 1)', 'if 1:\n  pass', 'match 1:\n  case _:\n    pass',
                'for i in []:\n  pass', 'while 0:\n  pass', 'len("a")', 'try:\n  pass\nexcept ValueError:\n  pass',
                'try:\n  pass\nexcept* ValueError:\n  pass', 'assert True', 'class A:\n  pass',
                'def f():\n  pass', 'async def f():\n  pass', 'lambda: 1', 'import math', 'from math import floor',
                'async def f(a):\n  async for q in a:\n    pass']
+    # the slot grid: every inner construct in every syntactic position, with exactly its own flag
+    # withdrawn (must be refused) and with everything granted (must behave like plain execution)
+    grid = list(slot_programs())
+    for code, inner in grid:
+      try:
+        parsed = ast.parse(code)
+      except SyntaxError:
+        continue
+      tree = tree_of(parsed)
+      inner_kinds = [k for k, _ in kinds_of(tree_of(ast.parse(inner))) if k in REQUIRED]
+      flag = REQUIRED[inner_kinds[0]] if inner_kinds else 'CALL'
+      yield {'op': 'run', 'code': code, 'explicit': [f for f in FLAGS if f != flag], 'scopes': [], 'tree': tree}
+      yield {'op': 'run', 'code': code, 'explicit': None, 'scopes': [list(FLAGS)], 'tree': tree}
     for code in singles:
       tree = tree_of(ast.parse(code))
       for drop in FLAGS:
@@ -401,7 +477,8 @@ class C19(Prop):
     case = self.with_tree(case)
     if case.get('tree') is None:
       return None
-    return {'op': 'evaluate', 'explicit': case['explicit'], 'scopes': case['scopes'], 'tree': case['tree']}
+    return {'op': 'evaluate', 'explicit': case['explicit'], 'scopes': case['scopes'],
+            'pre': case.get('pre', []), 'tree': case['tree']}
 
   def with_tree(self, case):
     if 'tree' in case:
@@ -432,7 +509,12 @@ class C19(Prop):
     code = case['code']
     sentinel = []
     reached = []
-    real_exec, real_eval = builtins.exec, builtins.eval
+    real_exec, real_eval, real_compile = builtins.exec, builtins.eval, builtins.compile
+
+    def compile_w(source, *a, **k):
+      if isinstance(source, ast.AST):     # evaluate compiles the validated tree: validation is over
+        reached.append('compile')
+      return real_compile(source, *a, **k)
 
     def exec_w(*a, **k):
       reached.append('exec')
@@ -447,12 +529,15 @@ class C19(Prop):
     with contextlib.ExitStack() as stack:
       for s in case['scopes']:
         stack.enter_context(coding.permission(perm(s)))
+      for s in case.get('pre', []):          # inner scopes entered and left before the call
+        with coding.permission(perm(s)):
+          pass
       slot_inside = names_of(coding.get_permission())
-      builtins.exec, builtins.eval = exec_w, eval_w
+      builtins.exec, builtins.eval, builtins.compile = exec_w, eval_w, compile_w
       try:
         out = coding.evaluate(code, global_vars={'SENTINEL': sentinel, 'CTX': contextlib.nullcontext},
                               permission=perm(case['explicit']), outputs_intermediate=True)
-        obs = {'outcome': 'ok', 'stdout': out.pop('__stdout__', None),
+        obs = {'outcome': 'ok', 'stdout': _canon_text(out.pop('__stdout__', None)),
                'result': _canon_value(out.pop('__result__', None)),
                'vars': {k: _canon_value(v) for k, v in out.items()}}
       except coding.CodeError as e:
@@ -461,11 +546,12 @@ class C19(Prop):
       except Exception as e:   # pylint: disable=broad-except
         obs = {'outcome': 'other_error', 'cause': type(e).__name__}
       finally:
-        builtins.exec, builtins.eval = real_exec, real_eval
+        builtins.exec, builtins.eval, builtins.compile = real_exec, real_eval, real_compile
     slot_after = names_of(coding.get_permission())
-    obs['reached'] = bool(reached)
+    obs['reached'] = bool([r for r in reached if r != 'compile'])   # something was executed
+    obs['validated'] = bool(reached)                                 # validation was passed
     obs['sentinel'] = list(sentinel)
-    if obs['outcome'] == 'code_error' and not reached:
+    if obs['outcome'] == 'code_error' and not obs['validated']:
       result = {'outcome': 'rejected', 'line': obs['line']}
     else:
       result = {'outcome': 'runs'}
@@ -530,7 +616,7 @@ class C19(Prop):
               'what': '%s (line %d) needs %s, which is not granted (granted=%s), but the program was not '
                       'refused before execution: %s' % (k, forbidden[0][1], REQUIRED[k], sorted(granted), obs)}
     # Only granted constructs (w.r.t. the property's table).
-    if obs['outcome'] == 'code_error' and not obs['reached']:
+    if obs['outcome'] == 'code_error' and not obs['validated']:
       return None     # stricter gating than the property demands: reported, never a violation
     if ref['outcome'] == 'raised':
       if obs['outcome'] != 'code_error' or obs['cause'] != ref['error']:
@@ -575,7 +661,7 @@ class C19(Prop):
     if granted is not None:
       if any(k in REQUIRED and REQUIRED[k] not in granted for k, _ in kinds):
         h.append('has-forbidden-construct')
-      elif obs['outcome'] == 'code_error' and not obs['reached']:
+      elif obs['outcome'] == 'code_error' and not obs['validated']:
         h.append('strict-reject(not a violation)')
       if any(k in REQUIRED_STRICT and REQUIRED_STRICT[k] not in granted for k, _ in kinds):
         h.append('debatable-construct-ungranted')
@@ -588,6 +674,8 @@ class C19(Prop):
   def shrink_candidates(self, case):
     lines = case['code'].split('\n')
     for i in range(len(lines)):
+      if lines[i].strip() == 'break' or '+ 1' in lines[i]:
+        continue      # never drop what makes a loop terminate
       cand = lines[:i] + lines[i + 1:]
       code = '\n'.join(cand)
       if not code.strip():
